@@ -252,6 +252,38 @@ def mon_add_macro_pm(args):
     return None
 
 
+def mon_mm_eq(args):
+    x, o = args["self"], args["other"]
+    r = x.__eq__(o)
+    if not isinstance(o, MacroSourceMapping):
+        return None if r is False else f"__eq__ with a non-macro-mapping returned {r!r}"
+    want = mm_view(x) == mm_view(o)
+    return None if r is want else f"__eq__ returned {r!r}, field-wise equality is {want!r}"
+
+
+def g_mm_pair(rng):
+    a = g_macro(rng)
+    k = rng.randint(0, 9)
+    if k == 9:
+        return {"self": a, "other": rng.choice([None, 3, SourceMapping(a.line, a.column)])}
+    b = MacroSourceMapping.deserialize(json.loads(json.dumps(a.serialize())))
+    if k == 0:
+        b.line += 1
+    elif k == 1:
+        b.column += 1
+    elif k == 2:
+        b.relpath_included_file = "other.exps" if b.relpath_included_file != "other.exps" else None
+    elif k == 3:
+        b.macro_name = b.macro_name + "_"
+    elif k == 4:
+        b.called_in = None if b.called_in is not None else ("f", 1, 2)
+    elif k == 5:
+        b.return_addr = (b.return_addr or 0) + 1
+    elif k == 6:
+        b.parameter_mapping = dict(b.parameter_mapping, zz=1)
+    return {"self": a, "other": b}
+
+
 NATIVE = {
     SM + ":SourceMapPositionMark.serialize": {"gen": lambda r: {"self": g_pm(r)}, "monitor": mon_leaf_serialize(SourceMapPositionMark, PM_FIELDS), "repr": rep_map},
     SM + ":SourceMapPositionMark.deserialize": {"gen": lambda r: {"data_list": pm_view(g_pm(r))}, "monitor": mon_leaf_deserialize(SourceMapPositionMark, PM_FIELDS), "repr": rep_map},
@@ -263,4 +295,5 @@ NATIVE = {
     SM + ":SourceMap.serialize": {"gen": lambda r: {"self": g_map(r)}, "monitor": mon_roundtrip, "repr": rep_map},
     SM + ":SourceMapPositionMark.__eq__": {"gen": g_pm_pair, "monitor": mon_pm_eq, "repr": rep_map},
     SM + ":SourceMapBuilder.add_macro_position_mark": {"gen": lambda r: {"n_before": r.randint(0, 3), "if_incl_rel_path": r.choice([None, "a.exps"]), "macro_name": g_str(r), "position_mark": g_pm(r)}, "monitor": mon_add_macro_pm, "repr": rep_map},
+    SM + ":MacroSourceMapping.__eq__": {"gen": g_mm_pair, "monitor": mon_mm_eq, "repr": rep_map},
 }
